@@ -20,7 +20,8 @@ EXTENDS Transition, TLC
 
 CONSTANTS Transitive, TopoSort, ExitFix, OrderedAuto, OrderedTopo
 
-Fx == [transitive |-> Transitive, toposort |-> TopoSort, exitfix |-> ExitFix]
+Fx == [transitive |-> Transitive, toposort |-> TopoSort, exitfix |-> ExitFix,
+       selffix |-> ExitFix]   \* both repairs of auto partial acceptance (fix: C07)
 
 NoHandlers == [on |-> FALSE, binds |-> <<>>]
 
